@@ -408,6 +408,53 @@ mod harnesses {
         assert!(n.len() == 1 && n.iter().count() == 1);
     }
 
+    /// C13: inserting an equal element keeps the element that is already stored (only `replace` swaps it)
+    #[kani::proof]
+    #[kani::unwind(6)]
+    fn set_insert_keeps_stored() {
+        let mut s: HashSet<Tagged, Seeded> = HashSet::with_hasher(Seeded(0));
+        assert!(s.insert(Tagged { id: 7, tag: 1 }));
+        let t: u8 = kani::any();
+        assert!(!s.insert(Tagged { id: 7, tag: t }));
+        assert!(s.len() == 1);
+        assert!(s.get(&Tagged { id: 7, tag: 0 }).unwrap().tag == 1);
+        assert!(s.replace(Tagged { id: 7, tag: 2 }).unwrap().tag == 1);
+        assert!(s.get(&Tagged { id: 7, tag: 0 }).unwrap().tag == 2);
+    }
+
+    /// C13: is_disjoint follows the definition also for aliased and empty operands
+    #[kani::proof]
+    #[kani::unwind(6)]
+    fn set_is_disjoint_self() {
+        let mut a = Set::with_hasher(Seeded(0));
+        assert!(a.is_disjoint(&a)); // the empty set is disjoint from itself
+        let b = Set::with_hasher(Seeded(0));
+        assert!(a.is_disjoint(&b) && b.is_disjoint(&a));
+        a.insert(1);
+        assert!(!a.is_disjoint(&a));
+        assert!(a.is_disjoint(&b));
+        a.remove(&1);
+        assert!(a.is_disjoint(&a));
+    }
+
+    /// C12/C01: OccupiedEntry::replace_entry stores the key the entry was created with and hands back the stored one
+    #[kani::proof]
+    #[kani::unwind(6)]
+    fn entry_replace_entry_swaps_key() {
+        let mut m: HashMap<Tagged, u8, Seeded> = HashMap::with_hasher(Seeded(0));
+        m.insert(Tagged { id: 7, tag: 1 }, 10);
+        let t: u8 = if kani::any() { 2 } else { 3 };
+        match m.entry(Tagged { id: 7, tag: t }) {
+            griddle::hash_map::Entry::Occupied(o) => {
+                let (old_k, old_v) = o.replace_entry(11);
+                assert!(old_k.tag == 1 && old_v == 10);
+            }
+            griddle::hash_map::Entry::Vacant(_) => panic!("present key reported vacant"),
+        }
+        let (k, v) = m.get_key_value(&Tagged { id: 7, tag: 0 }).unwrap();
+        assert!(k.tag == t && *v == 11);
+    }
+
     /// C06: every value is dropped exactly once (static ledger), across a move between tables and a removal
     static mut LIVE: [u8; 16] = [0; 16];
     struct Tracked(u8);
